@@ -94,12 +94,18 @@ class _Runner(_Processor):
     ) -> None:
         async for key, payload, params in consumer:
             actor = actors[key.topic]
-            if self._limiter.locked():
-                await consumer.pause()
-                await self._limiter.acquire()
-                await consumer.unpause()
-            else:
-                await self._limiter.acquire()
+            try:
+                if self._limiter.locked():
+                    await consumer.pause()
+                    await self._limiter.acquire()
+                    await consumer.unpause()
+                else:
+                    await self._limiter.acquire()
+            except asyncio.CancelledError:
+                # stopped while waiting for a free slot: the consumer has already handed this message over,
+                # so nobody else would give it back
+                await self._conn.message_broker.reject(key)
+                raise
             t = asyncio.create_task(self._process_with_event(actor, key, payload, params))
             self._tasks.add(t)
             t.add_done_callback(self._task_callback)
